@@ -23,7 +23,10 @@ def build_corpus(rng, tier):
 def inputs_for(d, rng, tier, alphabet=None):
     fam = d.family()
     if fam == "int":
-        ex = 8 if tier == "quick" else 16
+        # thorough: every fourth declaration of a 16-bit type sees its whole domain
+        import re as _re
+        m = _re.search(r"(\d+)$", d.id)
+        ex = 16 if (tier != "quick" and m and int(m.group(1)) % 4 == 0) else 8
         return [("i", v) for v in corpus.int_inputs(d, rng, exhaustive_bits=ex)]
     if fam == "float":
         return [("f", v) for v in corpus.float_inputs(d, rng, extra=16 if tier == "quick" else 200)]
